@@ -15,49 +15,19 @@ RULE = ("harness c14: CLEAR PATH (4 backends, N in {8,16,32}, ext in {1,2,4,8}, 
         "directions, 1-3 keys, fresh encryptions, plus noise-free ciphertexts whose mod-switched mask takes boundary values; the decrypted "
         "accumulator is rounded to the table precision F = lut.size()*base2k bits (noise floor: 2^-(F+1)) and compared on all N coefficients "
         "with the model's accumulator phase; oracle = closed-form table rule / rounding rule (Model/C14Oracle.v).  The table limbs are read "
-        "through a layout mirror of LookupTable (no public accessor exists); 14010 reads them through the public API only.")
+        "through the verif accessors (feature c14hook) or a layout mirror of LookupTable; 14010 reads them through the public API only.")
 ASSUMPTIONS = [
     "release-mode (wrapping) integer semantics",
     "blind path: the external product is abstracted by its phase equation (Section hypothesis external_product_phase, owned by C04); "
     "the executable phase model drops the noise term, the comparison with the implementation is exact on the F most significant bits "
     "(noise below 2^-(F+1) at the parameter sets used: observed on every record of every run)",
     "set_xai_plus_y is pub(crate): modelled and proved, exercised only through the block-binary blind rotations",
-    "LookupTable limbs read through a field-for-field mirror struct (guarded by size/align and every public getter; cross-validated by 14010)",
+    "LookupTable limbs read through the cfg(poulpy_verif) accessors when the harness is built with the cargo feature c14hook, otherwise "
+    "through a field-for-field mirror struct (guarded by size/align and every public getter; cross-validated by 14010)",
 ]
 TRUSTED = ["harness-side rounding of the decrypted plaintext to F bits (c14.rs, 10 lines)"]
 
 
-def _parse(record):
-    f = record.rstrip("\n").split("#")
-    code = int(f[0])
-    ps = [int(x, 16) for x in f[1].split()]
-    vs = [[int(x, 16) for x in v.split()] for v in f[2].split(";")] if f[2].strip() else []
-    outs = f[3] if len(f) > 3 else ""
-    o = None if (outs.startswith("PANIC") or not outs.strip()) else [[int(x, 16) for x in v.split()] for v in outs.split(";")]
-    return code, ps, vs, o
-
-
 def classify(record):
-    """key of the known-finding class a failing record belongs to"""
-    try:
-        code, ps, vs, o = _parse(record)
-    except Exception:
-        return None
-    if o is None:
-        return None
-    if code == 14004:
-        n2, b = ps[0], ps[1]
-        log2n = (n2 - 1).bit_length() + 1
-        # second branch of mod_switch_2n: lwe radix <= log2(2N ext) + 1
-        return "mod_switch_2n.small_radix" if b <= log2n else None
-    if code == 14020:
-        n, ext, dist = ps[1], ps[2], ps[14]
-        if ext > 1 and dist == 0 and len(vs) >= 3 and len(o) >= 1:
-            t = 2 * n * ext
-            for a, s in zip(o[0][1:], vs[2]):
-                if s == 1:
-                    hi, lo = divmod(a % t, ext)
-                    if lo != 0 and (hi == 0 or hi == 2 * n - 1):
-                        return "cggi.extended.unit_monomial_skipped"
-        return None
+    """no open finding class (mod_switch_2n.small_radix fixed by /repo e75ed0e, cggi.extended.unit_monomial_skipped by acfeda9)"""
     return None
